@@ -86,6 +86,19 @@ def check_property(pid, tier='quick', seed=0, replay_only=None):
         cmds.append(r.cmd)
         smt_ms += getattr(r, 'smt_ms', 0) or 0
 
+    # ---- ownership scans (frame obligations of struct invariants)
+    scan_res = []
+    for sname in entry.get('scans', []):
+        from . import scans as SC
+        sr = SC.run_scan(R.REPO, sname)
+        scan_res.append(sr)
+        oid = 'scan/' + sname
+        obligations[oid] = {'props': [pid], 'kind': 'scan', 'fn': sname, 'text': sr['what'] + ' -- expected: no site'}
+        if sr['sites']:
+            failed[oid] = ['write site outside the owning module: %s:%d  %s' % (x['file'], x['line'], x['text']) for x in sr['sites']]
+        if sr['files_scanned'] == 0:
+            undecided.append('scan %s scanned zero files' % sname)
+
     # ---- Kani legs (bounded stand-ins / loop-free complete proofs)
     kani_res = []
     if kani_units:
@@ -103,7 +116,7 @@ def check_property(pid, tier='quick', seed=0, replay_only=None):
         unit = oid.split('/')[0]
         if oid in kf_ids:
             known_hits.append(kf_ids[oid])
-        elif oid in baseline(unit):
+        elif unit == 'scan' or oid in baseline(unit):
             violations.append((oid, msgs))
         else:
             never_proved.append(oid)
@@ -168,6 +181,7 @@ def check_property(pid, tier='quick', seed=0, replay_only=None):
             'solver_ms_total': smt_ms,
             'solver_ms_per_function': per_fn_ms,
             'canaries': canaries,
+            'ownership_scans': scan_res,
             'normalisation_log': normlog,
             'known_finding_obligations': [k['obligation'] for k in known_hits],
             'bounded_standins': [k for k in kani_res if not k.get('counts_as_proof')],
